@@ -398,6 +398,14 @@ impl Prop for C19 {
         ops.push(Op::Freq {
             hist: gen_hist(&mut rng, n, false),
         });
+        // an out-of-range axis request through iter_axis: the iterator must be empty, report a
+        // remaining length of 0 and never panic (drawn last so that earlier streams stay as they were)
+        for axis in dims..=dims + 1 {
+            ops.push(Op::AxisIter {
+                axis,
+                hist: gen_hist(&mut rng, 0, false),
+            });
+        }
         // indexing: out of range per axis, wrong length (in-range indices are all checked by Indices)
         for axis in 0..dims {
             let mut idx: Vec<usize> = shape.iter().map(|&l| rng.below(l as u64) as usize).collect();
@@ -534,7 +542,7 @@ impl Prop for C19 {
                     }
                 }
                 Op::AxisIter { axis, hist } => {
-                    let expected: Vec<Vec<f64>> = (0..shape[*axis])
+                    let expected: Vec<Vec<f64>> = (0..shape.get(*axis).copied().unwrap_or(0))
                         .map(|pos| model_view(shape, *axis, pos).into_iter().map(|f| f as f64).collect())
                         .collect();
                     let it = std::cell::RefCell::new(Some(array.iter_axis(Axis(*axis))));
@@ -795,7 +803,7 @@ impl Prop for C19 {
 
     fn rule(&self) -> String {
         "A case is one shape of the grid 1..5 axes x lengths 1..5 (3,905 shapes; quick visits each once, thorough 100 times with fresh histories) with, for every axis 0..dims+1 and \
-         every position 0..len+1, a get_axis request, and for every valid (axis, position) a view-iterator call history; plus histories on iter_indices, iter_axis(axis) and \
+         every position 0..len+1, a get_axis request, and for every valid (axis, position) a view-iterator call history; plus histories on iter_indices, iter_axis(axis) (also for the two out-of-range axes dims and dims+1, where the iterator must be empty, report length 0 and not panic) and \
          iter_frequencies, sum(axis) for every axis, and in-range / out-of-range / wrong-length indexing. A history interleaves next(), len(), size_hint() and clone() and continues \
          1..2*len+4 next() calls past the first None. Every API call is an evaluation; distinct non-trivial = distinct (shape, operation incl. its full history)."
             .to_string()
@@ -804,7 +812,7 @@ impl Prop for C19 {
     fn assumptions(&self) -> Vec<String> {
         vec![
             "No fault or schedule dimension exists for this property; the simulator contributes seeded call histories, the reference model, minimisation and replay only".into(),
-            "iter_axis / sum / index_axis are only called with valid axes (index_axis is documented to panic; get_axis is the fallible request the statement talks about)".into(),
+            "sum / index_axis are only called with valid axes (index_axis is documented to panic; sum returns an array, not an Option; get_axis and iter_axis are the requests that can express 'nothing there' and are driven with out-of-range axes too)".into(),
             "The harness is built with overflow checks and debug assertions on, like a dev build".into(),
         ]
     }
